@@ -165,12 +165,13 @@ def _intlike(x):
 class SymInt(Sym):
     """mathematical integer (python int is unbounded).  `width` (optional): the value is known to lie in
     [0, 2**width) -- needed for bit operations, which decompose the value into fresh boolean bits."""
-    __slots__ = ("term", "width", "_bits")
+    __slots__ = ("term", "width", "_bits", "_bytes")
 
-    def __init__(self, term, width=None, bits=None):
+    def __init__(self, term, width=None, bits=None, bytes_=None):
         self.term = term
         self.width = width
         self._bits = bits
+        self._bytes = bytes_      # big-endian byte terms this value was assembled from (canonical bit source)
 
     def _short(self):
         s = str(self.term)
@@ -267,11 +268,33 @@ class SymInt(Sym):
 
     # bit operations through bit decomposition
     def bits(self):
+        if self._bits is None and self._bytes is not None:
+            eng = E.current()
+            reg = eng.memo.setdefault("byte_bits", {})
+            out = []
+            for t in reversed(self._bytes):
+                if z3.is_int_value(t):
+                    out.extend(z3.BoolVal(bool((t.as_long() >> i) & 1)) for i in range(8))
+                    continue
+                bb = reg.get(t.get_id())
+                if bb is None:
+                    bb = [eng.fresh("bit", "bool") for _ in range(8)]
+                    eng.add(t == z3.Sum([z3.If(b, z3.IntVal(1 << i), z3.IntVal(0)) for i, b in enumerate(bb)]))
+                    reg[t.get_id()] = bb
+                    eng.memo.setdefault("keepalive", []).append(t)
+                out.extend(bb)
+            self._bits = out
         if self._bits is None:
             if self.width is None:
                 raise Unmodelled("bit operation on a symbolic int of unknown width: %s" % self._short())
             eng = E.current()
+            cache = eng.memo.setdefault("term_bits", {})
+            hit = cache.get(self.term.get_id())
+            if hit is not None and len(hit[0]) == self.width:
+                self._bits = hit[0]
+                return self._bits
             bs = [eng.fresh("bit", "bool") for _ in range(self.width)]
+            cache[self.term.get_id()] = (bs, self.term)
             eng.add(self.term == z3.Sum([z3.If(b, z3.IntVal(1 << i), z3.IntVal(0)) for i, b in enumerate(bs)])
                     if bs else self.term == 0)
             self._bits = bs
